@@ -5,9 +5,22 @@ import toml
 from codemodder.project_analysis.file_parsers.package_store import (
     FileType,
     PackageStore,
+    parse_requirement,
 )
 
 from .base_parser import BaseParser
+
+
+def _poetry_requirement(name: str, constraint) -> str:
+    """
+    Poetry constraints such as "*", "~1.3", a bare "1.3.1" or a table are not
+    PEP 508 specifiers. Keep at least the name so that the package counts as declared.
+    """
+    if isinstance(constraint, str) and constraint[:1] in "<>=!~^":
+        requirement = f"{name}{constraint}"
+        if parse_requirement(requirement):
+            return requirement
+    return name
 
 
 class PyprojectTomlParser(BaseParser):
@@ -34,7 +47,7 @@ class PyprojectTomlParser(BaseParser):
 
         if poetry_data:
             poetry_dependencies = [
-                f"{name}{version}"
+                _poetry_requirement(name, version)
                 for name, version in poetry_data.get("dependencies", {}).items()
                 if name != "python"
             ]
